@@ -23,8 +23,12 @@ static void c16_gen(Tape &t, Case &c) {
   gen_start_model(t, 5, 5, (int)t.below(3), true, m);
   for (int j = 0; j < m.n(); j++) m.cols[j].name = "v" + std::to_string(j);
   for (int i = 0; i < m.m(); i++) m.rows[i].name = "r" + std::to_string(i);
+  // integer marks exist only on objects that come out of a reader: one case in four starts from such an object
+  // (route R_FILE through the harness's own MPS text); the runner drops the marks if that route is not taken
+  bool ints = m.n() > 0 && t.chance(1, 4);
+  if (ints) { bool any = false; for (auto &col : m.cols) if (t.coin()) { col.isint = true; any = true; } if (!any) m.cols[0].isint = true; }
   c.add_model(m);
-  c.ops.push_back(Op("route").I(t.below(R_NROUTES)));
+  c.ops.push_back(Op("route").I(ints ? (long)R_FILE : (long)t.below(R_NROUTES)));
   // parameters of the original (all of them non-default in most cases)
   Op pr("params");
   static const int pp[] = {QS_PRICE_PDANTZIG, QS_PRICE_PDEVEX, QS_PRICE_PSTEEP, QS_PRICE_PMULTPARTIAL};
@@ -95,6 +99,10 @@ static void c16_run(const Case &c, Result &r) {
   Model M[2];
   P[0] = sut_build(m0, route, &why);
   if (!P[0]) { r.fail("build:" + why, why); return; }
+  bool want_int = false;
+  for (auto &col : m0.cols) want_int |= col.isint;
+  if (!g_built_via_file) for (auto &col : m0.cols) col.isint = false;
+  if (want_int) r.label(g_built_via_file ? "start:integer-marks" : "start:integer-marks-dropped");
   M[0] = m0;
   if (pos < c.ops.size() && c.ops[pos].k == "params") {
     const Op &o = c.ops[pos++];
@@ -188,6 +196,8 @@ static void c16_gen_lowprec(Tape &t, Case &c) {
   static const int pp[] = {QS_PRICE_PDANTZIG, QS_PRICE_PDEVEX, QS_PRICE_PSTEEP, QS_PRICE_PMULTPARTIAL};
   static const int dp[] = {QS_PRICE_DDANTZIG, QS_PRICE_DSTEEP, QS_PRICE_DMULTPARTIAL, QS_PRICE_DDEVEX};
   pr.I(pp[t.below(4)]).I(dp[t.below(4)]).I(t.below(4)).I(1 + t.below(5000)).I(t.below(2));
+  // objective limits travel with the copy as well (finite, and in general no double)
+  if (t.chance(2, 3)) { Q ul = gen_num(t, 1) + Q(1, 3), ll = -abs(gen_num(t, 2)) - Q(1, 7); ul.canonicalize(); ll.canonicalize(); pr.N(ul).N(ll); }
   c.ops.push_back(pr);
 }
 
@@ -226,6 +236,12 @@ static void c16_run_dbl(const Case &c, Result &r) {
   if (pos < c.ops.size() && c.ops[pos].k == "params") {
     const Op &o = c.ops[pos++];
     for (size_t k = 0; k < 5 && k < o.i.size(); k++) mpq_QSset_param(p, kIntParams[k], (int)o.i[k]);
+    if (o.q.size() >= 2) {
+      Q ul = o.q[0], ll = o.q[1];
+      mpq_QSset_param_EGlpNum(p, QS_PARAM_OBJULIM, ul.get_mpq_t());
+      mpq_QSset_param_EGlpNum(p, QS_PARAM_OBJLLIM, ll.get_mpq_t());
+      r.label("objective-limits-set");
+    }
   }
   dbl_QSdata *d = QScopy_prob_mpq_dbl(p, "dbl_copy");
   if (!d) { r.fail("lowprec-copy-null:dbl", "QScopy_prob_mpq_dbl returned NULL"); mpq_QSfree_prob(p); return; }
@@ -280,6 +296,12 @@ static void c16_run_dbl(const Case &c, Result &r) {
       dbl_QSget_param(d, id, &b);
       if (a != b) { r.fail(strprintf("lowprec:param%d:dbl", id), strprintf("parameter %d: %d -> %d", id, a, b)); break; }
     }
+    for (int id : {QS_PARAM_OBJULIM, QS_PARAM_OBJLLIM}) {
+      Q a; double b = 0;
+      if (mpq_QSget_param_EGlpNum(p, id, qp(a)) || dbl_QSget_param_EGlpNum(d, id, &b)) { r.fail("lowprec:numparam-unreadable:dbl", strprintf("parameter %d", id)); break; }
+      if (!is_fin(a)) continue;      // the in-band infinity maps to the target type's own infinity
+      if (!within_ulp_double(a, b)) { r.fail(strprintf("lowprec:param%d:dbl", id), strprintf("parameter %d: %s -> %.17g", id, qstr(a).c_str(), b)); break; }
+    }
   } while (0);
   dbl_QSfree_prob(d);
   mpq_QSfree_prob(p);
@@ -301,6 +323,12 @@ static void c16_run_mpf(const Case &c, Result &r) {
   if (pos < c.ops.size() && c.ops[pos].k == "params") {
     const Op &o = c.ops[pos++];
     for (size_t k = 0; k < 5 && k < o.i.size(); k++) mpq_QSset_param(p, kIntParams[k], (int)o.i[k]);
+    if (o.q.size() >= 2) {
+      Q ul = o.q[0], ll = o.q[1];
+      mpq_QSset_param_EGlpNum(p, QS_PARAM_OBJULIM, ul.get_mpq_t());
+      mpq_QSset_param_EGlpNum(p, QS_PARAM_OBJLLIM, ll.get_mpq_t());
+      r.label("objective-limits-set");
+    }
   }
   QSexact_set_precision(prec);
   mpf_QSdata *d = QScopy_prob_mpq_mpf(p, "mpf_copy");
@@ -348,6 +376,16 @@ static void c16_run_mpf(const Case &c, Result &r) {
       mpq_QSget_param(p, id, &a);
       mpf_QSget_param(d, id, &b);
       if (a != b) { r.fail(strprintf("lowprec:param%d:mpf", id), strprintf("parameter %d: %d -> %d", id, a, b)); break; }
+    }
+    for (int id : {QS_PARAM_OBJULIM, QS_PARAM_OBJLLIM}) {
+      Q a;
+      mpf_t b;
+      mpf_init(b);
+      bool bad = mpq_QSget_param_EGlpNum(p, id, qp(a)) || mpf_QSget_param_EGlpNum(d, id, &b);
+      if (bad) r.fail("lowprec:numparam-unreadable:mpf", strprintf("parameter %d", id));
+      else if (is_fin(a) && !within_prec_mpf(a, b, prec)) r.fail(strprintf("lowprec:param%d:mpf", id), strprintf("parameter %d: %s is not kept to %u bits", id, qstr(a).c_str(), prec));
+      mpf_clear(b);
+      if (r.verdict != PASS) break;
     }
   } while (0);
   mpf_QSfree_prob(d);
